@@ -1,0 +1,37 @@
+//go:build verif
+
+// Verification hooks (build tag "verif" only) for the C06 harness: entry points to the unexported
+// code paths that write to the xDS cache on behalf of one connection (request handling, push, the
+// debug config dump). Accessors only, no behaviour change; absent from normal builds.
+
+package xds
+
+import (
+	discovery "github.com/envoyproxy/go-control-plane/envoy/service/discovery/v3"
+
+	"istio.io/istio/pilot/pkg/model"
+)
+
+// VerifC06NewConnection builds a bare SotW connection around a proxy and a stream.
+func VerifC06NewConnection(proxy *model.Proxy, stream DiscoveryStream) *Connection {
+	c := newConnection("verif-c06", stream)
+	c.proxy = proxy
+	c.SetID(proxy.ID)
+	return c
+}
+
+// VerifC06ProcessRequest exposes processRequest.
+func VerifC06ProcessRequest(s *DiscoveryServer, req *discovery.DiscoveryRequest, con *Connection) error {
+	return s.processRequest(req, con)
+}
+
+// VerifC06PushConnection exposes pushConnection (what a push queue worker runs for one connection).
+func VerifC06PushConnection(s *DiscoveryServer, con *Connection, req *model.PushRequest) error {
+	return s.pushConnection(con, &Event{pushRequest: req, done: func() {}})
+}
+
+// VerifC06ConfigDump exposes connectionConfigDump (the body of /debug/config_dump?proxyID=...).
+func VerifC06ConfigDump(s *DiscoveryServer, con *Connection, includeEds bool) error {
+	_, err := s.connectionConfigDump(con, includeEds)
+	return err
+}
